@@ -36,6 +36,28 @@ pub struct Revision {
 #[derive(Clone, Debug, Serialize, Deserialize, PartialEq)]
 pub struct SynthSpec {
     pub revisions: Vec<Revision>,
+    /// bytes of `%` comment lines written after every plain object (pushes files across the
+    /// readers' 8 KiB buffer and 64 KiB scan-chunk boundaries)
+    #[serde(default)]
+    pub pad: usize,
+    /// object renumbering: object n is written as perm[n-1] (empty = identity); lets the catalog
+    /// live at an arbitrary number and position
+    #[serde(default)]
+    pub perm: Vec<u32>,
+    /// (logical object number, boundary, delta): pad so that this plain object's `N G obj` header
+    /// starts `delta` bytes before the given offset boundary (a reader's buffer / scan-chunk edge)
+    #[serde(default)]
+    pub straddle: Option<(u32, usize, usize)>,
+}
+
+impl SynthSpec {
+    pub fn m(&self, n: u32) -> u32 {
+        if n >= 1 && (n as usize) <= self.perm.len() {
+            self.perm[n as usize - 1]
+        } else {
+            n
+        }
+    }
 }
 
 #[derive(Clone, Debug, PartialEq)]
@@ -69,7 +91,8 @@ pub struct Built {
     pub containers: BTreeMap<u32, usize>,
 }
 
-pub fn body(num: u32, v: i64, kind: Kind) -> Vec<u8> {
+pub fn body(spec: &SynthSpec, num: u32, v: i64, kind: Kind) -> Vec<u8> {
+    let (pages, page) = (spec.m(2), spec.m(3));
     match kind {
         Kind::Dict => format!("<< /V {} /S (text-{}) /N {} >>", v, v, num).into_bytes(),
         Kind::Int => format!("{}", v).into_bytes(),
@@ -78,9 +101,9 @@ pub fn body(num: u32, v: i64, kind: Kind) -> Vec<u8> {
             let data = format!("data-{}", v);
             format!("<< /V {} /Length {} >>\nstream\n{}\nendstream", v, data.len(), data).into_bytes()
         }
-        Kind::Catalog => format!("<< /Type /Catalog /Pages 2 0 R /V {} >>", v).into_bytes(),
-        Kind::Pages => format!("<< /Type /Pages /Kids [3 0 R] /Count 1 /V {} >>", v).into_bytes(),
-        Kind::Page => format!("<< /Type /Page /Parent 2 0 R /MediaBox [0 0 612 792] /V {} >>", v).into_bytes(),
+        Kind::Catalog => format!("<< /Type /Catalog /Pages {} 0 R /V {} >>", pages, v).into_bytes(),
+        Kind::Pages => format!("<< /Type /Pages /Kids [{} 0 R] /Count 1 /V {} >>", page, v).into_bytes(),
+        Kind::Page => format!("<< /Type /Page /Parent {} 0 R /MediaBox [0 0 612 792] /V {} >>", pages, v).into_bytes(),
     }
 }
 
@@ -109,7 +132,7 @@ pub fn build(spec: &SynthSpec) -> Built {
     for rev in &spec.revisions {
         for op in &rev.ops {
             if let ObjOp::Define { num, .. } | ObjOp::Free { num } = op {
-                max_num = max_num.max(*num);
+                max_num = max_num.max(spec.m(*num));
             }
         }
     }
@@ -123,22 +146,47 @@ pub fn build(spec: &SynthSpec) -> Built {
         for op in &rev.ops {
             match op {
                 ObjOp::Define { num, gen, v, kind, in_objstm } => {
+                    let num = &spec.m(*num);
                     let in_stm = *in_objstm && rev.xref_stream && *gen == 0 && *kind != Kind::Stream;
                     if in_stm {
                         packed.retain(|(n, _)| n != num);
-                        packed.push((*num, body(*num, *v, *kind)));
+                        packed.push((*num, body(spec, *num, *v, *kind)));
                         entries.remove(num);
                     } else {
                         packed.retain(|(n, _)| n != num);
+                        if let Some((sn, boundary, delta)) = spec.straddle {
+                            if spec.m(sn) == *num && boundary > delta && out.len() + 2 <= boundary - delta {
+                                let target = boundary - delta;
+                                while out.len() < target {
+                                    let n = (target - out.len()).min(99);
+                                    if n == 1 {
+                                        out.push(b'\n');
+                                    } else {
+                                        out.push(b'%');
+                                        out.extend(std::iter::repeat(b's').take(n - 2));
+                                        out.push(b'\n');
+                                    }
+                                }
+                            }
+                        }
                         let off = out.len();
                         out.extend_from_slice(format!("{} {} obj\n", num, gen).as_bytes());
-                        out.extend_from_slice(&body(*num, *v, *kind));
+                        out.extend_from_slice(&body(spec, *num, *v, *kind));
                         out.extend_from_slice(b"\nendobj\n");
+                        let mut left = spec.pad;
+                        while left > 0 {
+                            let n = left.min(97);
+                            out.push(b'%');
+                            out.extend(std::iter::repeat(b'p').take(n));
+                            out.push(b'\n');
+                            left -= n;
+                        }
                         entries.insert(*num, Entry::InUse { off, gen: *gen });
                     }
                     model.insert(*num, ObjState { gen: *gen, val: Some((*v, *kind)), in_objstm: in_stm, rev: ri });
                 }
                 ObjOp::Free { num } => {
+                    let num = &spec.m(*num);
                     packed.retain(|(n, _)| n != num);
                     let g = model.get(num).map(|s| s.gen).unwrap_or(0);
                     let ng = if g == u16::MAX { g } else { g + 1 };
@@ -220,8 +268,8 @@ pub fn build(spec: &SynthSpec) -> Built {
             let prev = prev_xref.map(|p| format!(" /Prev {}", p)).unwrap_or_default();
             out.extend_from_slice(
                 format!(
-                    "{} 0 obj\n<< /Type /XRef /Size {} /W [1 4 2] /Index [{}] /Root 1 0 R{}{} /Length {} >>\nstream\n",
-                    x_num, size, index.trim_end(), prev, filter, payload.len()
+                    "{} 0 obj\n<< /Type /XRef /Size {} /W [1 4 2] /Index [{}] /Root {} 0 R{}{} /Length {} >>\nstream\n",
+                    x_num, size, index.trim_end(), spec.m(1), prev, filter, payload.len()
                 )
                 .as_bytes(),
             );
@@ -247,7 +295,7 @@ pub fn build(spec: &SynthSpec) -> Built {
                 i = j + 1;
             }
             let prev = prev_xref.map(|p| format!(" /Prev {}", p)).unwrap_or_default();
-            out.extend_from_slice(format!("trailer\n<< /Size {} /Root 1 0 R{} >>\n", size, prev).as_bytes());
+            out.extend_from_slice(format!("trailer\n<< /Size {} /Root {} 0 R{} >>\n", size, spec.m(1), prev).as_bytes());
         }
         let startxref_kw = out.len();
         out.extend_from_slice(format!("startxref\n{}\n%%EOF\n", xref_pos).as_bytes());
@@ -341,5 +389,31 @@ pub fn gen_spec(r: &mut Rng, o: &GenOpts) -> SynthSpec {
         }
         revisions.push(Revision { ops, xref_stream: xs, objstm_flate: r.chance(1, 2) });
     }
-    SynthSpec { revisions }
+    let perm: Vec<u32> = if r.chance(1, 3) {
+        let n = 3 + n_values;
+        let mut p: Vec<u32> = (1..=n as u32).collect();
+        for i in (1..n).rev() {
+            p.swap(i, r.usize_below(i + 1));
+        }
+        // also shuffle the order in which the base objects appear in the file
+        let base = &mut revisions[0].ops;
+        for i in (1..base.len()).rev() {
+            base.swap(i, r.usize_below(i + 1));
+        }
+        p
+    } else {
+        vec![]
+    };
+    let pad = match r.below(12) {
+        0 => 900 + r.usize_below(2000),
+        1 => 7000 + r.usize_below(9000),
+        _ => 0,
+    };
+    let straddle = if r.chance(1, 6) {
+        let boundary = *r.pick(&[8192usize, 8192, 16384, 65536, 65536, 131072]);
+        Some((1 + r.below(3 + n_values as u64) as u32, boundary, r.usize_below(9)))
+    } else {
+        None
+    };
+    SynthSpec { revisions, pad, perm, straddle }
 }
